@@ -32,7 +32,7 @@ REAL = common.REAL_ALL
 STUBS = common.STUBS_ALL
 INTERLEAVING_MEASURE = 'distinct (monitor kind, mode, number of updates or batches) tuples'
 PROBES = ['stateful_subspec', 'subspec_referenced_twice', 'nested_subspec', 'constant_used', 'constant_as_bound', 'pastified',
-          'online', 'dense_time', 'several_assertions_in_one_text', 'bounds_are_declared_constants_below_1e-6']
+          'online', 'dense_time', 'several_assertions_in_one_text', 'bounds_are_declared_constants_below_1e-6', 'interface_aware_semantics']
 
 
 def gen(rng, tier):
@@ -57,6 +57,28 @@ def gen(rng, tier):
         if sg.size(ast) >= 4 and sg.vars_of(ast):
             break
     defs, top = sg.modularize(rng, ast, max_subs=3)
+    sem, io = None, {}
+    if kind in ('dt', 'ct') and rng.random() < 0.4:
+        # interface-aware semantics (only the combined classes take one): modular and inlined form get the same declarations
+        sem = rng.choice(['output-robustness', 'input-robustness', 'output-vacuity', 'input-vacuity'])
+        io = dict((v, rng.choice(['input', 'output'])) for v in vars_ if rng.random() < 0.8)
+        if rng.random() < 0.3 and nv >= 2 and not (mode == 'on' and future):
+            # directed: a positive arithmetic sub-specification used as first argument of log/pow (the other argument over
+            # another variable) and again in a second predicate
+            x_, y_ = rng.sample(vars_, 2)
+            pdef = ['+', ['abs', ['var', x_]], ['const', 2.0]]
+            other = ['+', ['abs', ['var', y_]], ['const', 2.0]]
+            f_ = rng.choice(['log', 'pow', 'log'])
+
+            def mk(pp):
+                q1 = ['pred', rng.choice(['>=', '<=']), [f_, pp, other], ['const', rng.choice([1.0, 2.0, 0.5])]]
+                q2 = ['pred', rng.choice(['>=', '<=']), pp, ['const', rng.choice([3.0, 2.5, 4.0])]]
+                return [rng.choice(['or', 'and', 'implies']), q1, q2] if rng.random() < 0.7 else [rng.choice(['or', 'and']), q2, q1]
+            st_ = rng.getstate()
+            ast = mk(pdef)
+            rng.setstate(st_)
+            top = mk(['ref', 'p1'])
+            defs = [['p1', pdef]]
     if rng.random() < 0.12:
         # an alias sub-specification: a bare constant ('q1 = 3.0;') or a bare variable ('q1 = a;') with a name of its own
         leaves = sorted(set(json.dumps(x) for n_, a in defs + [['', top]] for x in sg.walk(a)
@@ -110,7 +132,8 @@ def gen(rng, tier):
     pastify = mode == 'on' and (any(x[0] in sg.FUTURE_OPS for x in sg.walk(ast)) or rng.random() < 0.1)
     sc = {'kind': kind, 'mode': mode, 'vars': vars_, 'ast': ast, 'defs': defs, 'top': top, 'subs_text': subs, 'top_text': toptext,
           'consts': dict((k, repr(float(v))) for k, v in consts.items()), 'bconsts': bconsts, 'pastify': bool(pastify),
-          'declare': rng.random() < 0.5, 'via': rng.choice(['add_sub_spec', 'text']), 'const_numeric': rng.random() < 0.4, 'fine': fine}
+          'declare': rng.random() < 0.5, 'via': rng.choice(['add_sub_spec', 'text']), 'const_numeric': rng.random() < 0.4, 'fine': fine,
+          'sem': sem, 'io': io}
     if dense:
         sc['signals'] = dict((v, world.gen_dense_signal(rng, rng.randint(2, 7), start_q=0, max_gap_q=4)[0]) for v in vars_)
         sc['nbatches'] = rng.randint(1, 4)
@@ -130,6 +153,9 @@ def gen(rng, tier):
 
 def modular_desc(sc):
     desc = {'cls': sc['kind'], 'vars': common.var_decls(sc['vars']), 'pastify': sc['pastify']}
+    if sc.get('sem'):
+        desc['semantics'] = sc['sem']
+        desc['io'] = dict(sc.get('io') or {})
     if sc.get('subs_text') is not None:
         subs, top = sc['subs_text'], sc['top_text']
         cs = [[k, 'float', (float(sc['consts'][k]) if sc.get('const_numeric') else sc['consts'][k])] for k in sorted(sc['consts'])] + \
@@ -157,6 +183,9 @@ def inlined_desc(sc):
     dense = sc['kind'].startswith('ct')
     text = common.dense_text(sc['ast']) if dense else 'out = ' + sg.to_text(sc['ast']) + ';'
     d = {'cls': sc['kind'], 'vars': common.var_decls(sc['vars']), 'spec': text, 'pastify': sc['pastify']}
+    if sc.get('sem'):
+        d['semantics'] = sc['sem']
+        d['io'] = dict(sc.get('io') or {})
     if sc.get('fine'):
         d['unit'] = 'us'
         if sc.get('subs_text') is not None:
@@ -328,6 +357,8 @@ def run(sc):
         r.probes['constant_as_bound'] += 1
     if sc['pastify']:
         r.probes['pastified'] += 1
+    if sc.get('sem'):
+        r.probes['interface_aware_semantics'] += 1
     if sc.get('fine') and sc.get('subs_text') is not None:
         r.probes['bounds_are_declared_constants_below_1e-6'] += 1
     if dense:
